@@ -120,6 +120,8 @@ NOTES = {
     "C16-s13": "first a harness error (`os.utime(fd)` journals a descriptor, not a path), then missed: directory outputs in C16 (`dir` family); the journal resolves descriptors",
     "C16-s14": "C16 first missed it (C05 caught it): a selection pattern that uses only a character class",
     "C19-s14": "C19 first missed it (C20 caught it): another project's configuration file in the unrelated invoking directory",
+    "C06-s6": "C06 first missed it (C18 caught it): a run restricted to one cone must leave the status of every target outside it as it was (selection + hashing config in the quick tier)",
+    "C07-s5": "a defect of the local pool's own dependency check (C11 reports it)",
     "C07-s8": "first missed: the scheduler moves while gwf is submitting (one environment step before the k-th scheduler command of a run)",
 }
 
